@@ -59,6 +59,26 @@ CHECKS = {
         "ref": "DESIGN.md section 3 C18", "note": _TB + " The size of the Bowring truncation error is sampled, not proved (partial).",
         "technique": "Coq proof + exhaustive recogniser correspondence in vm_compute + round-trip oracles on the rebuilt functions",
     },
+    "C10": {
+        "text": "Coq theorems: weighting by C = L L' equals ordinary least squares on the whitened system (normal equations, v'Pv, residuals); the band copied by Cluster::activeCov contains every non-zero entry of the sub-matrix of the active observations (positions of a strictly increasing index list grow at least as fast as ranks); CovMat packed addressing is the running sum of the row lengths and has the expected total size. End-to-end: diagonal cov-mat == stdevs, block-diagonal cluster == separate clusters, banded cluster with an excluded observation == explicit sub-matrix, and 7 kinds of malformed matrices refused with a diagnostic by all four algorithms (ASan build in the thorough tier).",
+        "ref": "DESIGN.md section 3 C10", "note": _TB,
+        "technique": "Coq proof (whitening, band/sub-matrix index arithmetic) + end-to-end equivalence relations",
+    },
+    "C13": {
+        "text": "Coq theorems: a stationary point needs no correction and its re-adjustment reproduces residuals (every other minimiser differs by a datum transformation). End-to-end: three export / re-adjust rounds on generated networks with every cluster type, attribute, axes/angle convention, degrees and removed observations: same points/status/attributes/observations in the export, same results, no further iterations, exports equal as parsed documents.",
+        "ref": "DESIGN.md section 3 C13", "note": _TB + " The exporter and parser are not modelled (partial): the relation is checked on the real executables only. One recorded finding (observed coordinates reset approximate ones).",
+        "technique": "Coq proof (stationary point theorem) + end-to-end export fixed-point relation",
+    },
+    "C14": {
+        "text": "Coq theorems: excluding rows equals deleting them (selection matrix), and the gross-absolute-term rule is monotone in the misclosure. End-to-end: injected blunders of 0.5..10 x tol-abs on every observation type with several standard deviations and tol-abs values (incl. steep zenith sights), isolated points, single-direction stations, unusable targets (incl. slope distance to a point without height), single determining elements: exclusion follows the positional rule, is listed in the text output, and results equal those of the input with the excluded items deleted, for all algorithms.",
+        "ref": "DESIGN.md section 3 C14", "note": _TB + " The revision visitors are not modelled in Coq (partial); one recorded finding (threshold applied to the weight-scaled term).",
+        "technique": "Coq proof (row selection) + end-to-end deletion-equivalence relation",
+    },
+    "C20": {
+        "text": "Coq theorems: a regularisation that does not resolve the defect admits a second minimiser with the same residuals and selected norm (no unique adjustment exists, refusal is forced); a non-zero entry of a null vector makes that unknown's column a combination of the others. Correspondence: non-resolving subsets raise BadRegularization in all four solvers (exact reference); unknowns flagged by lindep() on generated ill-posed networks are checked against the rank of the implementation's own project equations; end-to-end: planted deficiencies x 4 algorithms: same refusal/adjustment, nothing undetermined reported as adjusted, no non-finite numbers.",
+        "ref": "DESIGN.md section 3 C20", "note": _TB + " Two recorded findings (svd flags by singular-value index; removed points depend on the algorithm's pivot order).",
+        "technique": "Coq proof (non-uniqueness / dependence theorems) + rank oracle on the implementation's equations + end-to-end relation",
+    },
     "C12": {
         "text": "Coq theorems: str2xml's output is decoded back to the input by standard XML entity decoding for every byte string (hence no raw < or &), and is injective; correspondence K: Strings.str2xml vs GNU_gama::str2xml exhaustively on short strings over an alphabet with all XML specials plus random hostile strings, compared inside coqc",
         "ref": "DESIGN.md section 3 C12",
